@@ -1,4 +1,5 @@
 CONSTANTS W = 5  U = 4  ValidEnt = {8, 12}  Swap = FALSE
+First3 = {0, 1, 17, 31, 32}
 INIT Init
 NEXT Next
 INVARIANT RoundTrip
